@@ -321,6 +321,102 @@ theorem changeScalars_unit (db : Db) (name : Sym) (s : Scalar) (v : Sym) :
   simp only [changeScalars, List.find?, BEq.rfl]
   cases s.createCopy db none (some v) none <;> simp [setAttr]
 
+/-! ### 4b. `CreateCopy(unit=…, category=…)`: every argument form -/
+
+/-- **`Scalar.CreateCopy(unit=v, category=c2)`**, value omitted: the amount is converted by the
+database's float conversion of the object's OWN category / unit to `v` — whatever category is passed —
+and the quantity is `ObtainQuantity(v, c2)` -/
+theorem scalar_createCopy_unit_category {db : Db} {c u0 : Sym} {q : Quantity}
+    (hq : newSimple db c u0 = .ok q) (x : Rat) (v c2 : Sym) :
+    (Scalar.mk q x).createCopy db none (some v) (some c2) =
+      match db.convert c q.unit v x with
+      | .error e => .error e
+      | .ok y =>
+        match newSimple db c2 v with
+        | .error e => .error e
+        | .ok q' => .ok ⟨q', y⟩ := by
+  simp only [Scalar.createCopy, Scalar.copyValue, scalar_getValue_eq_convert hq, copyQuantity]
+  cases db.convert c q.unit v x with
+  | error e => rfl
+  | ok y => simp only; cases newSimple db c2 v <;> rfl
+
+/-- **passing the object's own category changes nothing**: `CreateCopy(value, unit=v, category=own)`
+= `CreateCopy(value, unit=v)`, for every Scalar (simple or derived) that has a category, with the
+value given or omitted -/
+theorem createCopy_with_own_category_eq_createCopy (db : Db) (s : Scalar) (hc : s.q.category ≠ 0)
+    (value : Option Rat) (v : Sym) :
+    s.createCopy db value (some v) (some s.q.category) = s.createCopy db value (some v) none := by
+  have : (s.q.category != 0) = true := by simpa using hc
+  simp only [Scalar.createCopy, copyQuantity, this, ↓reduceIte]
+
+/-- the same for `Array.CreateCopy` / `FixedArray.CreateCopy`, every container kind (flat, list of
+tuples, ndarray) and every length -/
+theorem array_createCopy_with_own_category_eq_createCopy (db : Db) (a : Arr) (hc : a.q.category ≠ 0)
+    (values : Option Val) (v : Sym) :
+    a.createCopy db values (some v) (some a.q.category) = a.createCopy db values (some v) none := by
+  have : (a.q.category != 0) = true := by simpa using hc
+  simp only [Arr.createCopy, copyQuantity, this, ↓reduceIte]
+
+/-- **`CreateCopy(unit=v, category=c2)` to another category**: the copy has the category that was
+given and that category's quantity type (the source's, when both categories share it) and carries
+the converted amount -/
+theorem scalar_createCopy_other_category {db : Db} {c u0 : Sym} {q : Quantity}
+    (hq : newSimple db c u0 = .ok q) {x : Rat} {v c2 : Sym} {s' : Scalar}
+    (h : (Scalar.mk q x).createCopy db none (some v) (some c2) = .ok s') :
+    s'.q.category = c2 ∧ db.convert c q.unit v x = .ok s'.value ∧ newSimple db c2 v = .ok s'.q
+      ∧ ∀ ci ci2, db.catByName c = some ci → db.catByName c2 = some ci2 → ci2.qtype = ci.qtype →
+          s'.q.qtype = q.qtype := by
+  rw [scalar_createCopy_unit_category hq] at h
+  cases h1 : db.convert c q.unit v x with
+  | error e => rw [h1] at h; cases h
+  | ok y =>
+    rw [h1] at h; simp only at h
+    cases h2 : newSimple db c2 v with
+    | error e => rw [h2] at h; cases h
+    | ok q' =>
+      rw [h2] at h; cases h
+      obtain ⟨k1, k2⟩ := newSimple_category_qtype h2
+      refine ⟨k1, rfl, rfl, ?_⟩
+      intro ci ci2 hci hci2 hqt
+      rw [k2 ci2 hci2, hqt, (newSimple_category_qtype hq).2 ci hci]
+
+/-- **`Array.CreateCopy(unit=v, category=c2)`** for flat containers of every kind and length: the
+numbers are the float conversion element by element, the quantity is `ObtainQuantity(v, c2)` -/
+theorem array_createCopy_unit_category {db : Db} {c u0 : Sym} {q : Quantity} (hq : newSimple db c u0 = .ok q)
+    {v : Sym} {x0 y0 : Rat} (h : db.convert c q.unit v x0 = .ok y0) (c2 : Sym) (k : Kind) (xs : List Rat) :
+    (Arr.mk q (k.mk xs)).createCopy db none (some v) (some c2) =
+      match mapE (db.convert c q.unit v) xs with
+      | .error e => .error e
+      | .ok ys =>
+        match newSimple db c2 v with
+        | .error e => .error e
+        | .ok q' => .ok ⟨q', k.mk ys⟩ := by
+  simp only [Arr.createCopy, Arr.copyValues, array_getValues_kind hq h, copyQuantity]
+  cases mapE (db.convert c q.unit v) xs <;> rfl
+
+/-- **list of tuples / tuple of tuples** through `CreateCopy(unit=v, category=c2)`: per coordinate the
+float conversion, nesting kept -/
+theorem array_createCopy_tuples_category {db : Db} {c u0 : Sym} {q : Quantity} (hq : newSimple db c u0 = .ok q)
+    (v c2 : Sym) (outerTuple : Bool) (xs : List Rat) (xss : List (List Rat)) :
+    (Arr.mk q (mkTuples outerTuple (xs :: xss))).createCopy db none (some v) (some c2) =
+      match mapE (mapE (db.convert c q.unit v)) (xs :: xss) with
+      | .error e => .error e
+      | .ok yss =>
+        match newSimple db c2 v with
+        | .error e => .error e
+        | .ok q' => .ok ⟨q', mkTuples outerTuple yss⟩ := by
+  simp only [Arr.createCopy, Arr.copyValues, array_getValues_tuples hq, copyQuantity]
+  cases mapE (mapE (db.convert c q.unit v)) (xs :: xss) <;> rfl
+
+/-- a category without a unit is rejected (`TypeError`), whatever the object holds -/
+theorem createCopy_category_without_unit (db : Db) (s : Scalar) (value : Option Rat) (c2 : Sym) :
+    s.createCopy db value none (some c2) = .error .type := by
+  cases value <;> simp [Scalar.createCopy, Scalar.copyValue, Scalar.getValue, copyQuantity]
+
+theorem array_createCopy_category_without_unit (db : Db) (a : Arr) (values : Option Val) (c2 : Sym) :
+    a.createCopy db values none (some c2) = .error .type := by
+  cases values <;> simp [Arr.createCopy, Arr.copyValues, Arr.getValues, copyQuantity]
+
 /-! ### 5. `FixedArray.IndexAsScalar`, `FixedArray.ChangingIndex` -/
 
 /-- **`IndexAsScalar(i, quantity)`**: the item at the (Python-normalised) index, converted by the
@@ -495,6 +591,115 @@ theorem convertScalarToCurrent_keeps_category {db : Db} {c u0 : Sym} {q : Quanti
             · intro m' toU' h1 h2; cases h1; rw [hm] at h2; cases h2
               exact Or.inl ⟨hconv, hnew⟩
             · intro hn; rw [hn m rfl] at hm; cases hm
+
+/-! ### 6b. the manager routes in EVERY state of the manager: no history -/
+
+/-- **the answer of `ConvertToCurrent` is a function of (current units mapping, category, unit, value)
+and of nothing else**, and the call leaves the manager as it was: whatever was asked before, whatever
+path led to the state -/
+theorem mgr_convert_step (db : Db) (m : Mgr) (c u : Sym) (val : Val) :
+    m.step db (.convert c u val) = (m, convOut (convertToCurrent db (some m.currentMapping) c u val)) := rfl
+
+theorem mgr_convertScalar_step (db : Db) (m : Mgr) (s : Scalar) :
+    m.step db (.convertScalar s) = (m, scalarOut (convertScalarToCurrent db (some m.currentMapping) s)) := rfl
+
+/-- **history independence**: two managers that went through ANY two histories and now have the same
+current mapping answer every conversion request alike -/
+theorem mgr_convert_history_independent (db : Db) (m1 m2 : Mgr) (h1 h2 : List MgrOp)
+    (hsame : (Mgr.run db m1 h1).1.currentMapping = (Mgr.run db m2 h2).1.currentMapping)
+    (c u : Sym) (val : Val) (s : Scalar) :
+    ((Mgr.run db m1 h1).1.step db (.convert c u val)).2 = ((Mgr.run db m2 h2).1.step db (.convert c u val)).2
+      ∧ ((Mgr.run db m1 h1).1.step db (.convertScalar s)).2 = ((Mgr.run db m2 h2).1.step db (.convertScalar s)).2 := by
+  simp only [mgr_convert_step, mgr_convertScalar_step, hsame, and_self]
+
+/-- a history continues after its first call from the state that call left -/
+theorem mgr_run_cons (db : Db) (m : Mgr) (op : MgrOp) (ops : List MgrOp) :
+    Mgr.run db m (op :: ops) = ((Mgr.run db (m.step db op).1 ops).1, (m.step db op).2 :: (Mgr.run db (m.step db op).1 ops).2) := rfl
+
+theorem mgr_run_append (db : Db) (m : Mgr) (h1 h2 : List MgrOp) :
+    Mgr.run db m (h1 ++ h2) = ((Mgr.run db (Mgr.run db m h1).1 h2).1, (Mgr.run db m h1).2 ++ (Mgr.run db (Mgr.run db m h1).1 h2).2) := by
+  induction h1 generalizing m with
+  | nil => rfl
+  | cons op ops ih => simp only [List.cons_append, mgr_run_cons, ih]
+
+/-- **the conversion at the end of any history** is the float conversion to the unit the state then
+current maps the category to, labelled with that unit -/
+theorem mgr_convert_after_history (db : Db) (m : Mgr) (h : List MgrOp) (c u toU : Sym) (x : Rat)
+    (hm : systemDefaultUnit (Mgr.run db m h).1.currentMapping c = some toU) :
+    (Mgr.run db m (h ++ [.convert c u (.num x)])).2 = (Mgr.run db m h).2 ++
+      [match db.convert c u toU x with
+       | .error e => .error e
+       | .ok y => .ok (.conv (.num y) toU)] := by
+  rw [mgr_run_append]
+  simp only [Mgr.run, mgr_convert_step, convertToCurrent_eq db _ c u toU hm]
+  cases db.convert c u toU x <;> rfl
+
+/-- conversions never change the state: a history made of conversion requests only ends where it
+started (so asking twice gives the same answer twice) -/
+theorem mgr_conversions_keep_state (db : Db) (m : Mgr) (h : List MgrOp)
+    (hall : ∀ op ∈ h, (∃ c u val, op = .convert c u val) ∨ ∃ s, op = .convertScalar s) :
+    (Mgr.run db m h).1 = m := by
+  induction h generalizing m with
+  | nil => rfl
+  | cons op ops ih =>
+    have hop := hall op (List.mem_cons_self ..)
+    have hrest : ∀ op' ∈ ops, (∃ c u val, op' = .convert c u val) ∨ ∃ s, op' = .convertScalar s :=
+      fun op' hmem => hall op' (List.mem_cons_of_mem _ hmem)
+    rcases hop with ⟨c, u, val, rfl⟩ | ⟨s, rfl⟩
+    · simp only [mgr_run_cons, mgr_convert_step]; exact ih m hrest
+    · simp only [mgr_run_cons, mgr_convertScalar_step]; exact ih m hrest
+
+/-- **convert → `SetDefaultUnit` on the current system → convert**: whatever the history before, the
+second answer is the conversion to the NEW unit under the new label (seeded defect class: a memo of
+the unit pair kept per (category, unit) and not dropped by an in-place edit) -/
+theorem mgr_setDefaultUnit_then_convert (db : Db) (m : Mgr) (hwf : m.WF) {c : Sym} (hc : c ≠ 0) (u w : Sym) (x : Rat) :
+    (Mgr.run db m [.setDefaultUnit none c w, .convert c u (.num x)]).2 =
+      [.ok (.state (dictSet c w m.currentMapping)),
+       match db.convert c u w x with
+       | .error e => .error e
+       | .ok y => .ok (.conv (.num y) w)] := by
+  cases hed : m.edit none (dictSet c w) with
+  | error e => unfold Mgr.edit at hed; cases hcur : m.current <;> simp [hcur] at hed
+  | ok m' =>
+    obtain ⟨hmap, _⟩ := Mgr.currentMapping_edit hwf _ hed
+    simp only [Mgr.run, Mgr.step, hed, okState, hmap,
+      convertToCurrent_eq db _ c u w (systemDefaultUnit_dictSet m.currentMapping w hc)]
+    cases db.convert c u w x <;> rfl
+
+/-- … and another category's conversion is not touched by that edit -/
+theorem mgr_setDefaultUnit_other_category (db : Db) (m : Mgr) (hwf : m.WF) {c c' : Sym} (hcc : c' ≠ c) (u w : Sym) (val : Val) :
+    ((Mgr.run db m [.setDefaultUnit none c w]).1.step db (.convert c' u val)).2 = (m.step db (.convert c' u val)).2 := by
+  cases hed : m.edit none (dictSet c w) with
+  | error e => unfold Mgr.edit at hed; cases hcur : m.current <;> simp [hcur] at hed
+  | ok m' =>
+    obtain ⟨hmap, _⟩ := Mgr.currentMapping_edit hwf _ hed
+    simp only [Mgr.run, Mgr.step, hed, okState, hmap, convertToCurrent, systemDefaultUnit_dictSet_other _ _ hcc]
+
+/-- **`RemoveCategory` on the current system → convert**: value and unit come back unchanged -/
+theorem mgr_removeCategory_then_convert (db : Db) (m : Mgr) (hwf : m.WF) (c u : Sym) (val : Val) :
+    (Mgr.run db m [.removeCategory none c, .convert c u val]).2 =
+      [.ok (.state (dictDel c m.currentMapping)), .ok (.conv val u)] := by
+  cases hed : m.edit none (dictDel c) with
+  | error e => unfold Mgr.edit at hed; cases hcur : m.current <;> simp [hcur] at hed
+  | ok m' =>
+    obtain ⟨hmap, _⟩ := Mgr.currentMapping_edit hwf _ hed
+    simp [Mgr.run, Mgr.step, hed, okState, hmap, convertToCurrent, systemDefaultUnit_dictDel, convOut]
+
+/-- the invariant the three theorems above assume holds in every state a manager can reach: after ANY
+history of calls on a new manager the current system is one of its systems -/
+theorem mgr_reachable_wf (db : Db) (h : List MgrOp) : (Mgr.run db Mgr.new h).1.WF :=
+  Mgr.run_wf db (by intro id hc; cases hc) h
+
+/-- **after ANY history**: `SetDefaultUnit(c, w)` on the current system, then `ConvertToCurrent(c, u, x)`
+answers `(Convert(c, u, w, x), w)` -/
+theorem mgr_any_history_setDefaultUnit_convert (db : Db) (h : List MgrOp) {c : Sym} (hc : c ≠ 0) (u w : Sym) (x : Rat) :
+    (Mgr.run db Mgr.new (h ++ [.setDefaultUnit none c w, .convert c u (.num x)])).2 =
+      (Mgr.run db Mgr.new h).2 ++
+      [.ok (.state (dictSet c w (Mgr.run db Mgr.new h).1.currentMapping)),
+       match db.convert c u w x with
+       | .error e => .error e
+       | .ok y => .ok (.conv (.num y) w)] := by
+  rw [mgr_run_append, mgr_setDefaultUnit_then_convert db _ (mgr_reachable_wf db h) hc]
 
 /-! ### 7. an object created from a category default in a non-default unit -/
 
